@@ -96,6 +96,7 @@ type faultPlan struct {
 	path     string
 	off      int
 	teardown time.Duration // the stream is torn down this long after the start if the calls have not returned
+	errno    syscall.Errno // walk faults: 0 = the walk returns a plain error, else entry `at` is reported to the callback with this errno
 }
 
 // runXfer runs fsutil.Send(src) against fsutil.Receive(dest) over the instrumented pipe.
